@@ -30,7 +30,7 @@ Lits == {One, Two, OneM, OneS, Str(T("x")), Bool(TRUE), Date(2021, 1, 1), Time(1
 FChars == {97, 32, 34, 92, 36, 96, 39, 0, 1, 8, 9, 10, 12, 13, 27, 31, 127, 173, 233, 769, 8203, 8364, 65279, 128512}
 MoreLits == {N("-1.5", <<>>), N("1000000000000000000000", <<>>), N("0.001", <<T("kWh")>>), N("2.5e10", <<>>),
              Str(<<34>>), Str(<<92>>), Str(<<36>>), Str(<<10>>), Str(<<233>>), Str(<<128512>>), Str(<<>>), Str(T("a and b")),
-             Bool(FALSE), Date(2020, 2, 29), Time(23, 59, 59, 123000000),
+             Bool(FALSE), Date(2020, 2, 29), Time(23, 59, 59, 123000000), Time(1, 2, 3, 123456789), Time(12, 30, 0, 123400000), Time(0, 0, 0, 1),
              DateTime(DaysFromCivil(2021, 1, 15), 43200, 0, 0, T("UTC")),
              DateTime(DaysFromCivil(2021, 1, 15), 43200, 500000000, -18000, T("New_York")),
              DateTime(DaysFromCivil(2021, 1, 15), 43200, 0, 0, T("London")),
